@@ -44,8 +44,13 @@ CONSTANTS
                   \* TRUE : repaired (an aggregator without critical descendant starts INVARIANT)
   TrustCarried,   \* TRUE : code as is (merge takes the carried MIXED / ERROR / UNDEFINED at face value)
                   \* FALSE: repaired (merge always recomputes from the children's current values)
-  MergeAtomic     \* TRUE : code as is (the role's lock is held from the read of the cache to the assignment)
+  MergeAtomic,    \* TRUE : code as is (the role's lock is held from the read of the cache to the assignment)
                   \* FALSE: a broken merge (read + compute without the lock, only the assignment locked)
+  PropagateAlways,\* TRUE : code as is (an aggregator ALWAYS passes its value on to its parent after a merge)
+                  \* FALSE: a broken aggregator (passes it on only when it differs from the value sampled before the merge)
+  SampleStep      \* TRUE : the sample of the old value (oldState / oldStatus, read before the merge, outside the lock)
+                  \*        is a step of its own (the granularity of the gates); FALSE: taken together with MergeEnter
+                  \*        (equivalent when PropagateAlways: the sample is then used for the role events only)
 
 VARIABLES shape, cS, cT, thr, last, episodes,
           lock    \* lock[kind][role] = thread holding the role's state / status mutex (0 = free)
@@ -144,7 +149,9 @@ Shapes ==
     S16 |-> ShP(<<0, 1, 2, 1, 4>>, <<"agg", "agg", "task", "inc", "call">>, <<T, T, T, T, F>>, <<1, 2, 3, 6, 7>>),
     S17 |-> ShP(<<0, 1, 2, 2, 1>>, <<"agg", "agg", "task", "call", "task">>, <<T, T, T, F, F>>, <<1, 2, 4, 5, 6>>),
     S18 |-> ShP(<<0, 1>>, <<"agg", "task">>, <<T, F>>, <<1, 3>>),
-    S19 |-> ShP(<<0, 1, 2, 1>>, <<"agg", "agg", "task", "task">>, <<T, T, F, T>>, <<1, 5, 6, 8>>)
+    S19 |-> ShP(<<0, 1, 2, 1>>, <<"agg", "agg", "task", "task">>, <<T, T, F, T>>, <<1, 5, 6, 8>>),
+    \* three tasks under one non-root aggregator (three overlapping updates passing through it)
+    S20 |-> Sh(<<0, 1, 2, 2, 2>>, <<"agg", "agg", "task", "task", "task">>, <<T, T, T, T, T>>)
   ]
 
 (* Workflow templates with roles disabled by their `enabled` field. The loader (ProcessTemplates) *)
@@ -271,7 +278,7 @@ MergeStatus(c, n, s) ==
   ELSE IF TrustCarried /\ s = "UNDEFINED" THEN "UNDEFINED"
   ELSE AggStatus(c, n)
 
-Idle == [kind |-> "-", leaf |-> 0, at |-> 0, carried |-> "-", newv |-> "-", pc |-> "idle"]
+Idle == [kind |-> "-", leaf |-> 0, at |-> 0, carried |-> "-", newv |-> "-", old |-> "-", wait |-> "-", pc |-> "idle"]
 Threads == 1..MaxThreads
 Active == {t \in Threads : thr[t].pc # "idle"}
 Quiescent == Active = {}
@@ -310,35 +317,53 @@ Begin(t, l, k, v) ==
                     ELSE cT' = [cT EXCEPT ![l] = v] /\ UNCHANGED cS
   /\ IF k = "state" /\ ~Crit(l)
        THEN UNCHANGED thr                                   \* only critical roles forward state
-       ELSE thr' = [thr EXCEPT ![t] = [kind |-> k, leaf |-> l, at |-> Parent(l), carried |-> v, newv |-> "-", pc |-> "call"]]
+       ELSE thr' = [thr EXCEPT ![t] = [kind |-> k, leaf |-> l, at |-> Parent(l), carried |-> v, newv |-> "-", old |-> "-", wait |-> "-", pc |-> "call"]]
   /\ UNCHANGED <<shape, last, lock>>
 
 \* safestate.go / safestatus.go: merge, from lock(role) to the point where the new value is known.
 \* Equal value: nothing to do (lock and unlock within the step).
+CacheOf(t) == IF thr[t].kind = "state" THEN cS[thr[t].at] ELSE cT[thr[t].at]
+Locked(t) == MergeAtomic /\ lock[thr[t].kind][thr[t].at] # 0
+
+\* aggregatorrole.go: oldState := r.state.get() / oldStatus := r.status.get(): a read under the role's
+\* read lock, before the merge
+SampleBody(t) == thr' = [thr EXCEPT ![t].old = CacheOf(t), ![t].pc = "sampled", ![t].wait = "-"] /\ UNCHANGED lock
+
 EnterBody(t) ==
   LET n == thr[t].at
       s == thr[t].carried
       k == thr[t].kind
-      cur == IF k = "state" THEN cS[n] ELSE cT[n]
+      cur == CacheOf(t)
+      o == IF SampleStep THEN thr[t].old ELSE IF PropagateAlways THEN "-" ELSE cur   \* ("-": never looked at)
   IN IF cur = s
-       THEN thr' = [thr EXCEPT ![t].pc = "merged"] /\ UNCHANGED lock
-       ELSE /\ thr' = [thr EXCEPT ![t].pc = "computed",
+       THEN thr' = [thr EXCEPT ![t].pc = "merged", ![t].old = o, ![t].wait = "-"] /\ UNCHANGED lock
+       ELSE /\ thr' = [thr EXCEPT ![t].pc = "computed", ![t].old = o, ![t].wait = "-",
                                   ![t].newv = IF k = "state" THEN MergeState(cS, n, s) ELSE MergeStatus(cT, n, s)]
             /\ lock' = IF MergeAtomic THEN [lock EXCEPT ![k][n] = t] ELSE lock
 
-\* aggregatorrole.go: updateState / updateStatus call merge: the thread leaves its gate and either
-\* gets the role's lock or waits for it
-MergeEnter(t) ==
+\* the thread leaves its gate at the entry of updateState / updateStatus and samples the old value - or
+\* waits for the role's lock when another update is inside the merge
+Sample(t) ==
+  /\ SampleStep
   /\ thr[t].pc = "call" /\ thr[t].at # 0
-  /\ IF MergeAtomic /\ lock[thr[t].kind][thr[t].at] # 0
-       THEN thr' = [thr EXCEPT ![t].pc = "blocked"] /\ UNCHANGED lock
+  /\ IF Locked(t)
+       THEN thr' = [thr EXCEPT ![t].pc = "blocked", ![t].wait = "sample"] /\ UNCHANGED lock
+       ELSE SampleBody(t)
+  /\ UNCHANGED <<shape, cS, cT, last, episodes>>
+
+\* aggregatorrole.go: updateState / updateStatus call merge: the thread either gets the role's lock or
+\* waits for it
+MergeEnter(t) ==
+  /\ thr[t].pc = (IF SampleStep THEN "sampled" ELSE "call") /\ thr[t].at # 0
+  /\ IF Locked(t)
+       THEN thr' = [thr EXCEPT ![t].pc = "blocked", ![t].wait = "enter"] /\ UNCHANGED lock
        ELSE EnterBody(t)
   /\ UNCHANGED <<shape, cS, cT, last, episodes>>
 
-\* the lock became free: the waiting merge goes on by itself
+\* the lock became free: the waiting thread goes on by itself
 MergeUnblock(t) ==
   /\ thr[t].pc = "blocked" /\ lock[thr[t].kind][thr[t].at] = 0
-  /\ EnterBody(t)
+  /\ IF thr[t].wait = "sample" THEN SampleBody(t) ELSE EnterBody(t)
   /\ UNCHANGED <<shape, cS, cT, last, episodes>>
 
 \* t.state = <computed value>; unlock(role)
@@ -353,11 +378,13 @@ MergeAssign(t) ==
   /\ UNCHANGED <<shape, last, episodes>>
 
 \* aggregatorrole.go: r.parent.updateState(r.state.get()): the cache is read again, outside the lock
+\* (a broken aggregator - PropagateAlways = FALSE - stops here when the value equals the one it sampled)
 ReadCache(t) ==
   /\ thr[t].pc = "merged"
   /\ LET n == thr[t].at IN
-       thr' = [thr EXCEPT ![t].carried = IF thr[t].kind = "state" THEN cS[n] ELSE cT[n],
-                          ![t].at = Parent(n), ![t].pc = "call"]
+       IF ~PropagateAlways /\ thr[t].old = CacheOf(t)
+         THEN thr' = [thr EXCEPT ![t] = Idle]
+         ELSE thr' = [thr EXCEPT ![t].carried = CacheOf(t), ![t].at = Parent(n), ![t].pc = "call", ![t].old = "-"]
   /\ UNCHANGED <<shape, cS, cT, last, episodes, lock>>
 
 \* parentadapter.go: updateState / updateStatus
@@ -369,7 +396,7 @@ Deliver(t) ==
 
 Next ==
   \/ \E t \in Threads, l \in Leaves, k \in Kinds : \E v \in LeafValues(l, k) : Begin(t, l, k, v)
-  \/ \E t \in Threads : MergeEnter(t) \/ MergeUnblock(t) \/ MergeAssign(t) \/ ReadCache(t) \/ Deliver(t)
+  \/ \E t \in Threads : Sample(t) \/ MergeEnter(t) \/ MergeUnblock(t) \/ MergeAssign(t) \/ ReadCache(t) \/ Deliver(t)
 
 Spec == Init /\ [][Next]_vars
 
@@ -393,7 +420,7 @@ SeqStatus(c, l, v) == ClimbT([c EXCEPT ![l] = v], Parent(l), v)
 (* ------------------------------------------------------------------------ *)
 TypeOK ==
   /\ \A n \in Nodes : cS[n] \in States /\ cT[n] \in Statuses
-  /\ \A t \in Threads : thr[t].pc \in {"idle", "call", "blocked", "computed", "merged"}
+  /\ \A t \in Threads : thr[t].pc \in {"idle", "call", "sampled", "blocked", "computed", "merged"}
   \* a lock is held exactly by the thread that computed and has not assigned yet
   /\ \A k \in {"state", "status"}, n \in Nodes :
         lock[k][n] # 0 <=> (MergeAtomic /\ \E t \in Threads : t = lock[k][n] /\ thr[t].pc = "computed"
